@@ -8,8 +8,10 @@
 
   Of the federation attributes only `inaccessible`, `tags`, `extends` are modelled (the others —
   keys, shareable, external, requires, provides, override, requiresScopes, interfaceObject — are
-  never set by the cases).  `compose_directive` groups by URL through a `HashMap`: exact for at
-  most one distinct URL.
+  never set by the cases).  `compose_directive` groups the composable directives by URL through a
+  `HashMap<&str, Vec<String>>` and writes the groups in the map's iteration order, which differs
+  from call to call: `exportSdlG` takes the order of the groups as a parameter (`exportSdl` = the
+  order of first appearance); every statement about it is for any permutation.
 
   Defect toggles (true = behaviour of the pinned tree):
     reasonQuoteRaw            `escape_string` has no arm for `"`
@@ -29,6 +31,8 @@
                               field the input object's own `inaccessible` and `tags`
     extendKeepsDescription    in a federation export an `extends` object/interface is written as
                               `extend type …` *after* its description (an extension has none)
+    composeUrlRaw             the URL of a composable directive is written between quotes as it is
+                              (`url: "{}"`): no escaping at all
 -/
 import AGV.Core.Sdl
 import AGV.Model.Print
@@ -45,13 +49,14 @@ structure Defects where
   dynInterfaceImplementsDropped : Bool := false
   dynInputFieldAttrsFromObject : Bool := false
   extendKeepsDescription : Bool := false
+  composeUrlRaw : Bool := false
   deriving Repr, DecidableEq
 
 def Defects.none : Defects := {}
 def Defects.pinned : Defects :=
   { reasonQuoteRaw := true, descSingleLineRaw := true, descBlockRaw := true, tagQuoteOnly := true,
     interfaceDirectivesFirst := true, dynInterfaceImplementsDropped := true,
-    dynInputFieldAttrsFromObject := true, extendKeepsDescription := true }
+    dynInputFieldAttrsFromObject := true, extendKeepsDescription := true, composeUrlRaw := true }
 
 def s (x : String) : Text := x.toList
 
@@ -336,37 +341,46 @@ def directiveSdl (D : Defects) (o : Opts) (d : DirDef) : Text :=
 def federationImports : Text :=
   s "import: [\"@key\", \"@tag\", \"@shareable\", \"@inaccessible\", \"@override\", \"@external\", \"@provides\", \"@requires\", \"@composeDirective\", \"@interfaceObject\", \"@requiresScopes\"]"
 
-/-- composable directives grouped by URL, in order of first appearance -/
+/-- composable directives grouped by URL, in order of first appearance; a group carries the
+    import names `@name` (the code keeps them already quoted, `format!("\"@{}\"", d.name)`, and
+    writes them verbatim: the quotes are written by `composeSdl` here) -/
 def composeGroups (ds : List DirDef) : List (Text × List Text) :=
   ds.foldl (fun acc d =>
     match d.composable with
     | none => acc
     | some url =>
-      let nm := s "\"@" ++ d.name ++ s "\""
+      let nm := '@' :: d.name
       if acc.any (fun g => g.1 = url) then acc.map (fun g => if g.1 = url then (g.1, g.2 ++ [nm]) else g)
       else acc ++ [(url, [nm])]) []
 
-def composeSdl (o : Opts) (g : Text × List Text) : Text :=
-  s "extend schema @link(\n" ++ tab o ++ s "url: \"" ++ g.1 ++ s "\"\n" ++ tab o ++ s "import: [" ++
-    joinSep [','] g.2 ++ s "]\n)\n" ++
-    (g.2.map (fun n => tab o ++ s "@composeDirective(name: " ++ n ++ s ")\n")).flatten ++ ['\n']
+def quoted (n : Text) : Text := '"' :: n ++ ['"']
+
+/-- one `extend schema @link(url: …  import: […]) @composeDirective(name: …)…` block -/
+def composeSdl (D : Defects) (o : Opts) (g : Text × List Text) : Text :=
+  s "extend schema @link(\n" ++ tab o ++ s "url: \"" ++ (if D.composeUrlRaw then g.1 else escapeString false g.1) ++
+    s "\"\n" ++ tab o ++ s "import: [" ++
+    joinSep [','] (g.2.map quoted) ++ s "]\n)\n" ++
+    (g.2.map (fun n => tab o ++ s "@composeDirective(name: " ++ quoted n ++ s ")\n")).flatten ++ ['\n']
 
 def typeExported (o : Opts) (t : TypeDef) : Bool :=
   !startsWith2Underscores t.name && !(o.federation && federationTypes.contains t.name)
 
-def exportSdl (D : Defects) (S : Schema) (o : Opts) : Text :=
+/-- `Registry::export_sdl`, with the compose groups in the order `gs` -/
+def exportSdlG (D : Defects) (S : Schema) (o : Opts) (gs : List (Text × List Text)) : Text :=
   (((sortByName TypeDef.name S.types).filter (typeExported o)).map (exportType D o)).flatten ++
   (((allDirectives S).filter (directivePrinted S)).map (fun d => directiveSdl D o d ++ ['\n'])).flatten ++
   (if o.federation then
     s "extend schema @link(\n" ++ tab o ++ s "url: \"https://specs.apollo.dev/federation/v2.5\",\n" ++
       tab o ++ federationImports ++ s "\n)\n" ++
-      (if o.compose then '\n' :: ((composeGroups (allDirectives S)).map (composeSdl o)).flatten else [])
+      (if o.compose then '\n' :: (gs.map (composeSdl D o)).flatten else [])
    else
     s "schema {\n" ++ tab o ++ s "query: " ++ S.query ++ ['\n'] ++
       (match S.mutation with
        | some m => tab o ++ s "mutation: " ++ m ++ ['\n']
        | none => []) ++
       s "}\n")
+
+def exportSdl (D : Defects) (S : Schema) (o : Opts) : Text := exportSdlG D S o (composeGroups (allDirectives S))
 
 -- ------------------------------------------------------------------ registration
 
@@ -392,5 +406,9 @@ def register (D : Defects) (k : Kind) (S : Schema) : Schema :=
 
 /-- `Schema::sdl_with_options` -/
 def run (D : Defects) (k : Kind) (S : Schema) (o : Opts) : Text := exportSdl D (register D k S) o
+
+/-- … with the compose groups written in the order `gs` (a permutation of `composeGroups`) -/
+def runG (D : Defects) (k : Kind) (S : Schema) (o : Opts) (gs : List (Text × List Text)) : Text :=
+  exportSdlG D (register D k S) o gs
 
 end AGV.Model.Sdl
